@@ -87,4 +87,14 @@ theorem shutdown_protocol :
     probeChecksCtxFirst = true ∧ probeBoundToCtx = true ∧
     gracefulSequence = ["serverShutdown", "lbStop"] ∧ gracefulStopAlways = true := by decide
 
+/-- the stop signals are registered once and never un-registered: a signal that arrives while the
+process is draining is absorbed instead of taking its default action (C19: repeated stop calls are harmless) -/
+theorem signals_stay_registered : signalsStayRegistered = true := by decide
+
+/-- `CircuitBreaker.Execute`: a panic inside the protected call is recorded as a failure of that call
+(`afterRequest(generation, false)`) and then continues as the same panic — it is neither swallowed nor
+left unrecorded, whatever its value. The model's `end_ … false` for a panicking request, and the
+proxy's way of aborting a response whose backend died (a panic with `http.ErrAbortHandler`), rest on it. -/
+theorem execute_panic_is_failure_and_propagates : executeRecoverArm = true := by decide
+
 end Helios.Facts
